@@ -186,6 +186,21 @@ def scenarios(rng, thorough):
         w = progs.gen_chain_world(rng) if i % 5 == 2 else progs.gen_world(rng, nfun=rng.randint(2, 4), allow=("call", "keep", "datafn"))
         for f in w["funs"]:
             f["uses_ext"] = False
+        if i % 2 == 0:
+            # path names with dots in their last segment (file-like names: report.final, table.v1.csv)
+            suffix = [".final", ".v1.csv", ".tmp", ".0"]
+            ren = {}
+
+            def dotted(pth):
+                if pth not in ren:
+                    ren[pth] = pth + suffix[len(ren) % len(suffix)]
+                return ren[pth]
+            for f in w["funs"]:
+                if f.get("store_path"):
+                    f["store_path"] = dotted(f["store_path"])
+                for it in f["items"]:
+                    if it["k"] in ("keep", "load"):
+                        it["path"] = dotted(it["path"])
         # rekeep_top: the evaluated function is itself kept (dds.keep at top level) and keeps other paths inside
         # first_nested: store creation with the data directory inside the internal directory
         kind = ["first", "rekeep", "first_cached", "rekeep_top", "first_nested"][i % 5]
